@@ -50,9 +50,10 @@ class Livelock(BaseException):
 
 
 class watchdog:
-    """`with watchdog(seconds):` raises Livelock inside the block when it runs longer than
-    that (pure-Python spin loops never return to the event loop, so a timer signal is the only
-    way to observe them)."""
+    """`with watchdog(seconds):` raises Livelock inside the block when it has used more than
+    that much CPU time (pure-Python spin loops never return to the event loop, so a timer signal
+    is the only way to observe them).  CPU time of this process, not wall-clock time: a loaded
+    machine must not turn into an observation."""
 
     def __init__(self, seconds):
         self.seconds = seconds
@@ -63,13 +64,13 @@ class watchdog:
     def __enter__(self):
         import signal
         self._signal = signal
-        self._old = signal.signal(signal.SIGALRM, self._fire)
-        signal.setitimer(signal.ITIMER_REAL, self.seconds)
+        self._old = signal.signal(signal.SIGVTALRM, self._fire)
+        signal.setitimer(signal.ITIMER_VIRTUAL, self.seconds)
         return self
 
     def __exit__(self, *exc):
-        self._signal.setitimer(self._signal.ITIMER_REAL, 0)
-        self._signal.signal(self._signal.SIGALRM, self._old)
+        self._signal.setitimer(self._signal.ITIMER_VIRTUAL, 0)
+        self._signal.signal(self._signal.SIGVTALRM, self._old)
         return False
 
 
